@@ -1071,6 +1071,15 @@ def random_program(rng, name):
     return {"prog": p, "tags": sorted(b.tags), "desc": has_descending(p)}
 
 
+def final_event_bound(prog):
+    """upper bound of the length of the recorder's Final event body (the whole collection on one line, values
+    < FMOD: 5 digits): harness/ptg/ptg_driver.c formats it into a buffer of VT_LINE - 96 = 928 characters"""
+    return 2 + 3 * prog["ntiles"] + 6 * prog["ntiles"] * prog["ts"]
+
+
+FINAL_EVENT_MAX = 900
+
+
 def random_programs(seed, count, max_tasks=80, max_tiles=110):
     rng = random.Random(seed)
     out = []
@@ -1079,7 +1088,7 @@ def random_programs(seed, count, max_tasks=80, max_tiles=110):
         tries += 1
         try:
             r = random_program(rng, "vr%03d" % len(out))
-            if r["prog"]["ntiles"] > max_tiles:
+            if r["prog"]["ntiles"] > max_tiles or final_event_bound(r["prog"]) > FINAL_EVENT_MAX:
                 continue
             it, res = validate(r["prog"], max_tasks=max_tasks)
             r["ntasks"] = len(it.order)
